@@ -75,6 +75,9 @@ func init() {
 }
 
 func runC05(p *chk.Prog, r *chk.Report) {
+	// the per-peer lists share their advertisement objects: no session writes through them (SET-READONLY, shared with C17)
+	setReadonlyRule(p, r)
+	c05AliasFirst(p, r)
 	// the advertisements applied are those of the pool that owns the addresses now (POOL-CURRENT, shared with C09)
 	c09PoolCurrent(p, r)
 	c05PoolOfAddresses(p, r)
@@ -1206,4 +1209,38 @@ func c05PeerSelectors(p *chk.Prog, r *chk.Report) {
 		x.Check("peerFromCR:every-node-selector-kept", rs.Pos(), ok, "", "a node selector of the peer can be dropped (an empty selector, say): the remaining selectors no longer match the nodes the dropped one selected, the session is not started there and the peer is offered none of that node's routes")
 	}
 	x.Check("peerFromCR:selector-loop", f.Pos(), n == 1, "", "no loop converting p.Spec.NodeSelectors")
+}
+
+// c05AliasFirst: a name that a Community resource defines is that alias, whatever it looks like. The communities an
+// advertisement lists are resolved through the alias table first; only a name the table does not know is parsed as a
+// value. (An alias named like a value - "64512:666" for 65535:666 - would otherwise put the name on the routes.)
+func c05AliasFirst(p *chk.Prog, r *chk.Report) {
+	x := r.Rule("ALIAS-FIRST", "B path", "config.getCommunityValue returns the parsed form of the string (community.New) only behind a miss in the alias table handed to it; a hit returns the table's value", 2)
+	f := need(x, p, cfgPkg, "", "getCommunityValue")
+	if f == nil {
+		return
+	}
+	g := f.Graph()
+	name, table := isParamIdx(f, 0), isParamIdx(f, 1)
+	parsed := definedBy(g, "community.New(S)", chk.H("S", name))
+	hit := chk.GBool(true, definedByIdx(g, f, "T[S]", 1, chk.H("T", table), chk.H("S", name)))
+	miss := chk.GBool(false, definedByIdx(g, f, "T[S]", 1, chk.H("T", table), chk.H("S", name)))
+	nParsed, nHit := 0, 0
+	for _, rt := range g.Returns() {
+		res := retResults(rt)
+		if len(res) != 2 || !f.IsNilLit(res[1]) {
+			continue
+		}
+		switch {
+		case parsed(res[0]):
+			nParsed++
+			x.Check("getCommunityValue:parsed-only-after-alias-miss", rt.Pos(), g.Dominated(rt, miss), "", "the string is parsed as a community value without (or before) looking it up among the aliases: an alias whose name has the shape of a value is never resolved, and the routes carry the name instead of the alias's community")
+		case definedByIdx(g, f, "T[S]", 0, chk.H("T", table), chk.H("S", name))(res[0]):
+			nHit++
+			x.Check("getCommunityValue:alias-value-on-hit", rt.Pos(), g.Dominated(rt, hit), "", "the table's entry is returned without a hit")
+		default:
+			x.Fail("getCommunityValue:success-shape", rt.Pos(), "a community is returned that is neither the alias's value nor the parsed string")
+		}
+	}
+	x.Check("getCommunityValue:both-sources", f.Pos(), nParsed >= 1 && nHit >= 1, "", "expected a return of the alias's value and a return of the parsed string")
 }
